@@ -138,8 +138,11 @@ func H_close_race() {
 	if ok {
 		symx.Assert(sent && intOf(x) == v, "a received value was sent, and its send reported success")
 	} else {
-		// closed before anything was delivered: the send must have failed or its value still sits in the buffer
-		symx.Assert(!sent || c.Len() == 1, "a send that reported success is not lost")
+		// this receive found the channel closed and drained: in every sequential order of the three
+		// calls that explains it, the close precedes the send, so the send must report failure
+		// (a send that "succeeds" now leaves its value behind a consumer that has already been told
+		// the channel is finished)
+		symx.Assert(!sent, "after a receiver has seen the channel closed and drained, send reports failure")
 	}
 	symx.Reach("end")
 }
